@@ -215,6 +215,16 @@ def scalar_text(v, q='plain', as_key=False):
 
 # ------------------------------------------------------------------------------------------ renderer
 
+def _has_verbatim(n):
+    if n['t'] == 'raw':
+        return n.get('q') == 'verbatim'
+    if n['t'] == 'map':
+        return any(_has_verbatim(v) for _, v in n['items'])
+    if n['t'] == 'seq':
+        return any(_has_verbatim(v) for v in n['items'])
+    return False
+
+
 class Renderer:
     def __init__(self, erase=False):
         self.erase = erase
@@ -228,7 +238,10 @@ class Renderer:
         t = n['t']
         if t in ('sc', 'empty', 'raw'):
             return True
-        return n.get('flow') or not n['items']
+        if not n['items']:
+            return True
+        # texts that must stay unquoted and contain flow indicators (f-strings) cannot live inside a flow collection
+        return bool(n.get('flow')) and not _has_verbatim(n)
 
     def inline(self, n):
         """Text of node n in flow/inline form (without the tag)."""
@@ -252,7 +265,7 @@ class Renderer:
         text = n['text']
         q = n.get('q', 'plain')
         if q == 'block':
-            raise HarnessError('block raw only in block context')
+            return _dq(text)        # a literal block cannot be written inside a flow collection
         if q == 'verbatim':
             return text
         if q == 'plain' and text and '\n' not in text and text == text.strip() and not any(c in text for c in '#:{}[],&*!|>\'"%@`') \
